@@ -226,6 +226,7 @@ func runC03(env *Env) {
 					for a := 1; a < K; a++ {
 						orders = append(orders, ps[rng.Intn(len(ps))])
 					}
+					env.Current(fmt.Sprintf("engine N=%d M=%d answer-orders=%v", N, M, orders))
 					r := c03Run(N, M, orders)
 					rep.Evaluations++
 					rep.Count(fmt.Sprintf("engine_N%d_M%d_K%d", N, M, K))
